@@ -67,6 +67,8 @@ func repCases() []repCase {
 	add("MatMul", nil, 1, "vector-A", f(1, 3), f(2, 3, 2))
 	add("MatMul", nil, 1, "vector-A-batched-B", f(1, 3), f(2, 2, 3, 2))
 	add("Gemm", []hx.Attr{hx.AFloat("alpha", 0.5), hx.AFloat("beta", 2), hx.AInt("transB", 1)}, 1, "", f(1, 2, 3), f(2, 2, 3), f(3, 2))
+	add("Gemm", []hx.Attr{hx.AFloat("beta", 0)}, 1, "beta-zero-with-C", f(1, 2, 3), f(2, 3, 2), f(3, 2))
+	add("Gemm", []hx.Attr{hx.AFloat("alpha", 0), hx.AFloat("beta", 1.5)}, 1, "alpha-zero", f(1, 2, 3), f(2, 3, 2), f(3, 2))
 	add("Gemm", nil, 1, "bias(1,N)", f(1, 2, 3), f(2, 3, 2), f(3, 1, 2))
 	add("LinearRegressor", []hx.Attr{hx.AFloats("coefficients", 0.5, -1, 2, 0.25, 1, -0.5), hx.AInt("targets", 2), hx.AFloats("intercepts", 0.5, -0.25)}, 1, "", f(1, 2, 3))
 	add("Scaler", []hx.Attr{hx.AFloats("offset", 0.5, -1, 2), hx.AFloats("scale", 2, 0.5, -1)}, 1, "", f(1, 2, 3))
